@@ -149,8 +149,9 @@ func runC15(c *Ctx) {
 		nAcc, nHook := 0, 0
 		// the notification's atomic flag is one fact however often and wherever it is tested (field or getter,
 		// dispatch or helper): both values are replayed
-		for _, atomicArm := range []bool{false, true} {
-			atomicArm := atomicArm
+		isMeta := P.Func("cache", "isMetaNotification")
+		for _, scn := range [][2]bool{{false, false}, {true, false}, {false, true}, {true, true}} {
+			atomicArm, metaNoti := scn[0], scn[1]
 			e := &PPA{MaxVisits: 3, TraceBranches: true,
 				Inline: func(fr *Frame, call ssa.CallInstruction, callee *ssa.Function) bool { return callee.Parent() == GU },
 				Cond: func(e *PPA, st *State, rv RV) (bool, bool) {
@@ -163,6 +164,10 @@ func runC15(c *Ctx) {
 						}
 						recv = RV{r.F, v.X.(*ssa.FieldAddr).X}
 					case *ssa.Call:
+						// "is this a metadata notification" is one fact of the scenario, too
+						if isMeta != nil && staticCallee(&v.Call) == isMeta {
+							return metaNoti, true
+						}
 						if calleeName(&v.Call) != "(*proto/gnmi.Notification).GetAtomic" {
 							return false, false
 						}
@@ -176,8 +181,11 @@ func runC15(c *Ctx) {
 					return false, false
 				},
 				Watch: func(ev *Ev) bool {
-					return clientCall(ev) || isGU(ev) || isGR(ev) || isAdd(ev) || isCT(ev) || ev.Label == "if"
+					return clientCall(ev) || isGU(ev) || isGR(ev) || isAdd(ev) || isCT(ev) || ev.Label == "if" || (isMeta != nil && ev.Label == "call:"+fnName(isMeta))
 				}}
+			if isMeta != nil {
+				e.Opaque = map[*ssa.Function]bool{isMeta: true}
+			}
 			e.Run(GU)
 			c.Paths += len(e.Paths)
 			c.Scen++
@@ -215,6 +223,9 @@ func runC15(c *Ctx) {
 								hook = true
 							}
 						}
+						continue
+					}
+					if isMeta != nil && ev.Label == "call:"+fnName(isMeta) {
 						continue
 					}
 					seq = append(seq, ev)
@@ -283,8 +294,17 @@ func runC15(c *Ctx) {
 					evs := addIntEvents(p, names)
 					c.Check(len(evs) == 1 && evs[0] == "EmptyCount:1", "C15.one-category", fnName(GU), "empty notification counts as empty only", P.Pos(GU.Pos()), strings.Join(evs, ","))
 				}
-				// latest timestamp hook
-				if hook {
+				// latest timestamp: recorded at exit exactly when an update of a non-metadata notification was accepted
+				// (by a deferred hook or by explicit flow); never for a metadata notification
+				_ = hook
+				if metaNoti {
+					c.Check(!p.Has(isCT), "C15.latest", fnName(GU), "a metadata notification never moves the latest timestamp", P.Pos(GU.Pos()), "path: "+pathNoIf(p))
+				}
+				// (the "has updates && not metadata" decision short-circuits: the metadata test was evaluated only on
+				// paths on which the notification was found to carry updates - other paths that go on to apply updates
+				// are not feasible)
+				tracked := isMeta != nil && p.Has(lbl("call:"+fnName(isMeta)))
+				if !metaNoti && tracked {
 					nHook++
 					has := p.Has(isCT)
 					if accepted {
